@@ -84,14 +84,15 @@ def gen_program(rng, prop, tier, run_index):
     ops = []
     for k in range(nops):
         r = rng.random()
-        if r < 0.55:
+        if r < (0.45 if visco else 0.55):
             kind = str(rng.choice(['prop', 'reverse', 'rotate', 'tiny', 'large', 'at_yield'] if not visco
                                   else ['prop', 'reverse', 'rotate', 'tiny', 'large'],
-                                  p=[0.3, 0.15, 0.2, 0.1, 0.15, 0.1] if not visco else [0.35, 0.15, 0.2, 0.1, 0.2]))
+                                  p=[0.3, 0.15, 0.2, 0.1, 0.15, 0.1] if not visco else [0.25, 0.1, 0.4, 0.05, 0.2]))
             ops.append({'op': 'step', 'kind': kind, 'mag': float(yscale * 10.0 ** rng.uniform(-0.5, 1.2)),
                         'dtf': float(10.0 ** rng.uniform(-1, 1)) if rng.random() < 0.5 else 1.0})
         elif r < 0.72:
-            ops.append({'op': 'hold', 'dtf': float(10.0 ** rng.uniform(-1.5, 1.5))})
+            # holds: for the viscous models the interesting regime is dt >> tau after non-coaxial loading
+            ops.append({'op': 'hold', 'dtf': float(10.0 ** (rng.uniform(-1.5, 3.0) if visco else rng.uniform(-1.5, 1.5)))})
         elif r < 0.80:
             ops.append({'op': 'dt_jump', 'decades': float(rng.uniform(-6, 6))})
         elif r < 0.88 and not visco:
@@ -358,7 +359,7 @@ class App:
             self.dirs = self.rand_dirs()
         if kind == 'reverse':
             self.sign = -self.sign
-        scale = {'tiny': 1e-9, 'large': 1e-1}.get(kind)
+        scale = {'tiny': 1e-9, 'large': 0.35 if self.visco else 1e-1}.get(kind)
         if scale is None:
             scale = mag * (0.5 + self.rng.random(self.N))
         else:
